@@ -9,7 +9,7 @@ from . import binops as B
 
 PROPS = "theories/Props/C06.v"
 MODULE = "Props.C06"
-SUPPORT = ["theories/Proofs/QuantityP.v", "theories/Proofs/ExactP.v", "theories/Proofs/StoragesP.v", "theories/Proofs/MixedP.v", "theories/Proofs/Tree.v", "theories/Proofs/ErrBound.v"]
+SUPPORT = ["theories/Proofs/MixedArith.v", "theories/Proofs/QuantityP.v", "theories/Proofs/ExactP.v", "theories/Proofs/StoragesP.v", "theories/Proofs/MixedP.v", "theories/Proofs/Tree.v", "theories/Proofs/ErrBound.v"]
 
 QUICK_Q = ["velocity", "energy", "thermal_conductivity", "molar_heat_capacity", "length", "electric_potential",
            "luminance", "mass_density"]
